@@ -131,3 +131,14 @@ def body(env, cfg):
     env.eq("f[i](u) == f[i, p](u)", f[n - 1](u), full[n - 1])
     env.eq("f[-2:](u) == f[-2:, p](u)", list(f[-2:](u)), list(full[-2:]))
     env.eq("f[::-1](u) == reversed f[:, p](u)", list(f[::-1](u)), list(full[::-1]))
+    if W is None and len(mults) <= 3:
+        # the same Function object asked again after its knot vector was changed in place: nothing may be remembered
+        a = env.real("a")
+        f.knotvector.shift(a)
+        env.eq("after f.knotvector.shift(a): f(u + a) == N_i[U](u)", list(f(u + a)), list(full))
+        env.eq("after f.knotvector.shift(a): f[:, p](u + a) == N_i[U](u)", list(f[:, p](u + a)), list(full))
+        f.knotvector.shift(-a)
+        env.eq("shifted back: f(u) == N_i[U](u)", list(f(u)), list(full))
+        f.degree = p + 1
+        kv_up = KV(t, [m + 1 for m in mults], p + 1)
+        env.eq("after f.degree = p + 1: f(u) == Cox-de Boor of the elevated vector", list(f(u)), basis_row(kv_up, p + 1, u, kv_up.locate(u))[: kv_up.n])
